@@ -10,7 +10,7 @@ SPEC = {
     "claim": {
         "category": "exploration",
         "technique": "exhaustive enumeration of all Unicode scalar values (x13 neighbour contexts in the thorough tier) and of all Latin-1 bytes/pairs, a deterministic grid of long single-character runs, compiled-in literals, plus rapidcheck-generated scalar sequences through every public conversion route, compared unit-for-unit with reference encoders",
-        "text": "Every one of the 1,112,064 scalar values is converted by 15 conversions x 3 modes and the ST::string members and compared with an independent encoder (alone in the quick tier, in 13 neighbour contexts in the thorough tier); all 256 Latin-1 bytes and 65,536 pairs go to every UTF form and back; runs of one identical 2-, 3-, 4-byte or Latin-1 high character of 256 Ki..320 Ki units (to 1 Mi in the thorough tier), exact block multiples and one off, go through every conversion pair x 3 modes; 16 literals with embedded NULs and multi-byte endings are checked in 15 literal forms (ST_LITERAL, ST_*_LITERAL, _st, _stbuf). Generated sequences up to 300 scalars exercise ~300 route x mode combinations per case (pointer+length, buffer, char8_t, std::basic_string, string_view, constructors, set, operator=, from_*/to_*, literal operators) plus 100-270 extended calls: mode omitted, C-string overloads of every width, set_validated/from_validated, std::filesystem::path, caller-supplied outputs on pre-filled targets, deprecated utf_validation_t overloads, view(), ST::null, ten target pre-states, operator+/+= with C strings and single characters on either side, and set/operator=/+= from pointers and views into the target itself in all three modes.",
+        "text": "Every one of the 1,112,064 scalar values is converted by 15 conversions x 3 modes and the ST::string members and compared with an independent encoder (alone in the quick tier, in 13 neighbour contexts in the thorough tier); all 256 Latin-1 bytes and 65,536 pairs go to every UTF form and back; runs of one identical 2-, 3-, 4-byte or Latin-1 high character of 256 Ki..320 Ki units (to 1 Mi in the thorough tier), exact block multiples and one off, go through every conversion pair x 3 modes; 16 literals with embedded NULs and multi-byte endings are checked in 15 literal forms (ST_LITERAL, ST_*_LITERAL, _st, _stbuf). Generated sequences up to 300 scalars exercise ~300 route x mode combinations per case (pointer+length, buffer, char8_t, std::basic_string, string_view, constructors, set, operator=, from_*/to_*, literal operators) plus 100-270 extended calls: mode omitted, C-string overloads of every width, set_validated/from_validated, std::filesystem::path, caller-supplied outputs on pre-filled targets, deprecated utf_validation_t overloads, view(), ST::null, ten target pre-states, operator+/+= with C strings and single characters on either side, and set/operator=/+= from pointers and views into the target itself in all three modes. Both tiers run a second build with an unsigned plain char (-funsigned-char; a reduced number of generated cases and no enumerators in the quick tier). Every exact-size input copy starts 0..7 bytes past a 16-byte boundary (a function of the case bytes; 0 for half of the cases) and still ends where its heap block ends.",
         "level_note": "The single-character space is exhausted; longer sequences are sampled. Reference encoders are the trusted base.",
     },
 }
